@@ -52,6 +52,30 @@ fn probe_image(image: Vec<u8>, cfg: &Config, cx: &redb_verif_harness::codec::Ctx
         let same = obs2 == obs;
         let mut out = json!({"obs": obs, "integ": integ, "same": same});
         if record {
+            // C07: every persistent savepoint the recovered database lists can be restored, and restoring it (each on
+            // its own copy of the image) yields exactly the state it captured
+            let ids: Vec<u64> = obs["psp"].as_array().map(|a| a.iter().filter_map(|x| x.as_u64()).take(4).collect()).unwrap_or_default();
+            let mut restored = vec![];
+            for id in ids {
+                let copy = Store::from_bytes(image.clone());
+                let r = (|| -> Result<J, redb::Error> {
+                    let db2 = builder(cfg).create_with_backend(copy.backend())?;
+                    let mut w = db2.begin_write()?;
+                    let sp = w.get_persistent_savepoint(id)?;
+                    w.restore_savepoint(&sp)?;
+                    w.commit()?;
+                    observe(&db2, cx)
+                })();
+                restored.push(match r {
+                    Ok(o) => json!({"id": id, "obs": o}),
+                    Err(e) => json!({"id": id, "obs": {"error": redb_verif_harness::exec::err_name(&e), "msg": e.to_string()}}),
+                });
+            }
+            if !restored.is_empty() {
+                out["psp_restored"] = J::Array(restored);
+            }
+        }
+        if record {
             // sampled images: the allocation state right after recovery must be exactly what the
             // contents require (C11), and writing must not damage what is there
             out["acct"] = redb_verif_harness::exec::account(&db, store.len());
